@@ -185,7 +185,7 @@ def check_versions(tp, data, label, type_repr, source, shape, deser_only, st, ex
                 conv = json.loads(json.dumps(fn(tp, version=version, **extra_kw)))
                 defs = {}
                 if vname in ("oas3.0", "oas3.1"):
-                    defs = json.loads(json.dumps(definitions_schema(**{defkey: [tp]}, version=version)))
+                    defs = json.loads(json.dumps(definitions_schema(**{defkey: [tp]}, version=version, **{k: v for k, v in extra_kw.items() if k in ("aliaser", "additional_properties")})))
             except Exception as e:
                 st.violation(dict(base, signature={"kind": "conversion_exception", "exc": type(e).__name__, "version": vname}, what=f"{fn.__name__}(version={vname}) raised {e!r}"[:300]))
                 continue
@@ -322,6 +322,18 @@ class RecNode:
     value: int = 0
     children: List["RecNode"] = field(default_factory=list)
 RecNodeCapped = Annotated[RecNode, schema(max_props=1)]
+
+# names an aliaser rewrites, on both sides of a dependency and in required / properties, at the root and nested
+@dataclass
+class Billing:
+    full_name: str
+    credit_card: Optional[int] = None
+    billing_address: Optional[str] = None
+dependent_required({"credit_card": ["billing_address"]}, owner=Billing)
+@dataclass
+class Order:
+    bill_to: Billing
+    all_bills: List[Billing] = field(default_factory=list)
 '''
 
 
@@ -362,6 +374,27 @@ def run_worlds(st):
             ("Exc2@schema=min", m.Exc2, [0, 4.5, 5, 7.5, 10, 20], _schema(min=6, description="d")),
         ):
             check_versions(tp, data, "world:" + name, name, WORLD_SRC, "world:" + name, False, st, extra_kw={"schema": sch})
+        # names rewritten by an aliaser (given at the call, then through the settings): every name-bearing keyword follows in every dialect
+        from apischema.utils import to_camel_case
+
+        bills = [{"fullName": "n"}, {"fullName": "n", "creditCard": 1}, {"fullName": "n", "creditCard": 1, "billingAddress": "x"}, {"fullName": "n", "billingAddress": "x"},
+                 {"full_name": "n"}, {"fullName": "n", "credit_card": 1, "billing_address": "x"}, {"creditCard": 1, "billingAddress": "x"}, {}]
+        aliased = [
+            ("Billing", m.Billing, bills),
+            ("ListBilling", List[m.Billing], [[b] for b in bills] + [[]]),
+            ("Order", m.Order, [{"billTo": b} for b in bills] + [{"billTo": bills[2], "allBills": [b]} for b in bills] + [{"bill_to": bills[2]}]),
+        ]
+        for name, tp, data in aliased:
+            check_versions(tp, data, f"world:{name}@aliaser=camel", name, WORLD_SRC, f"world:{name}@aliaser", False, st, extra_kw={"aliaser": to_camel_case})
+            check_versions(tp, data, f"world:{name}@aliaser=camel,all_refs", name, WORLD_SRC, f"world:{name}@aliaser", False, st, extra_kw={"aliaser": to_camel_case, "all_refs": True})
+        try:
+            from apischema import settings as _settings
+
+            _settings.aliaser = to_camel_case
+            for name, tp, data in aliased:
+                check_versions(tp, data, f"world:{name}@settings.aliaser=camel", name, WORLD_SRC, f"world:{name}@settings.aliaser", False, st)
+        finally:
+            dc.world.restore_settings()
         # the conversion to a version is itself a serialization: global serialization settings must not leak into it
         from apischema import PassThroughOptions, settings
 
